@@ -28,6 +28,7 @@ def check(prog: Program, tier: str) -> Result:
             "tests the bare form only; where only the qualified form is emitted, every consumer that is not restricted "
             "to module-level subjects must test the qualified form. (R7.4) the assignment-target unpacker handles every "
             "binding target kind (Name, Tuple, List, Starred). (R7.5) the augmented preserve set is what is passed on. "
+            "(R7.6) a rule without a preserve parameter deletes a direct child statement of the module only under `not has_side_effect` or a kind test that excludes definitions. "
             "Not decided: removal of a definition by other means than the enumerated sites (e.g. inside dead code)."),
         rule_text="instances = option plumbing calls, definition-affecting sites, producer table entries per member class, target kinds of the unpacker",
     )
